@@ -30,7 +30,7 @@ TOL = 5e-9
 
 
 def BOUNDS(tier):
-    return {"rotations": "24 cube + %d generic" % (6 if tier == "thorough" else 2), "sides": ["left", "right"], "F_lattice_points": len(zoo.f_lattice(0, tier))}
+    return {"rotations": "24 cube + %d generic" % (6 if tier == "thorough" else 2), "sides": ["left", "right"], "F_lattice_points": len(zoo.f_lattice(0, tier)), "buffers": "one out= buffer per model reused over the whole rotation sequence"}
 
 
 def plan(tier, seed):
